@@ -94,8 +94,8 @@ def run(ctx):
                      dict(rows=rows, L=L))
     # ---- density matrix expansion
     for _ in range(ctx.budget(80, 800)):
-        n = rng.choice([1, 2, 3, 4, 5])
-        rows, r = G.rand_tableau(rng, n)
+        n = rng.choice([1, 2, 3, 4, 5]) if _ > 0 else 9      # one state with nine generators (more than one byte of selector bits)
+        rows, r = G.rand_tableau(rng, n) if n < 9 else G.rand_tableau(rng, n, 0)
         act = rows[r:n]
         st = impl.state(rows, r)
         try:
@@ -131,6 +131,9 @@ def run(ctx):
                 for d in prog:
                     circ.take(CU.impl_gate(impl, d)); CU.model_take(ctx.drv, mid, d)
                 # the POVM itself: back-evolved zero state
+                if rng.random() < 0.5:      # the measurement circuit may have been compiled (both maps) before it is used
+                    circ.compile(); ctx.drv.ask('circ %s compile' % mid)
+                    ctx.count('shadow:compiled')
                 pv = next(iter(circ.povm(1)))
                 ansp = ctx.drv.ask('circ %s povm -' % mid)
                 ctx.count('corr:povm')
